@@ -676,3 +676,17 @@ def case_pools_and_contexts():
     with ThreadPoolExecutor() as ex:
         flat = [t for part in ex.map(lambda c: [x + 1 for x in c], chunks) for t in part]
     return [mapped, res, log, l2 is log, flat]
+
+
+import io
+
+
+def case_stringio():
+    buf = io.StringIO()
+    n = buf.write("ab")
+    buf.write("c")
+    buf.writelines(["d", "e"])
+    with io.StringIO() as b2:
+        b2.write("y")
+        v2 = b2.getvalue()
+    return [n, buf.getvalue(), v2]
